@@ -8,7 +8,6 @@ NA = {
     'C05': 'directory walk over the System trait whose per-name decision is a regex-engine call; needs a file-system and regex model, not a contract on this code',
     'C06': 'totality and print/re-parse equality of the entire async parser and its Display impls over all strings; a whole-call-graph property, out of both tools\' subset/capacity',
     'C09': 'every step is a system call on the process descriptor table under fault injection; needs the table as ghost state of VirtualSystem (a model in Verus, out of capacity in Kani)',
-    'C10': 'the decision lives in async interpreter code (where Frame::Condition is pushed, how each kind of error ends a command); the only synchronous mechanism, errexit_is_applicable, is a one-line conjunction over two fields of Env whose contract would restate it, and building Env under Kani is out of capacity',
     'C13': 'quantified over process schedules; the family is silent on concurrency, and the mechanism is async over shared Rc<RefCell> state',
     'C14': 'quantified over schedules; the only object-level kernel (FIFO buffer) has 512/1024-byte constants and VecDeque byte loops beyond Kani\'s reach and outside Verus\'s subset',
     'C15': 'all-interleavings / fairness property of an Rc<RefCell> run queue with a raw waker vtable; with dyn Future inputs nothing is symbolic, and liveness is not decided by contracts',
@@ -102,6 +101,11 @@ NOTE.update({
 TECH.update({
     'C14': 'contract-based deductive verification (Verus, Z3) of FileBody::poll_read / poll_write and the readiness predicates on FIFOs',
 })
+
+
+LEVEL_TEXT['C10'] = 'Kernel only. Unbounded deductive proof (Verus) that errexit applies iff the option is on and no frame of the runtime stack, at any depth, is a Condition frame, that apply_errexit exits exactly on a failing status there, and that apply_result moves the exit status of a divert into $?; bounded Kani sibling on real Env values (stacks of <= 3 frames). Where Condition frames are pushed and how each kind of shell error ends a command is async interpreter code and is not decided.'
+NOTE['C10'] = 'Kernel only (the dynamic context stack decision). Trusted: Verus/Z3, Kani/CBMC; Env reduced to three fields in the Verus unit; OptionSet::get and slice::contains assumed; RandomState::new stubbed in Kani. Not covered: pushing of Condition frames, callers of apply_errexit, the shell-error consequence table.'
+TECH['C10'] = 'contract-based deductive verification (Verus, Z3) of Env::errexit_is_applicable / apply_errexit / apply_result + bounded Kani sibling on the real crate'
 
 
 def main():
